@@ -5,11 +5,36 @@ ENTRY = dict(
         title="A reported minimum really is the minimum sampling overhead",
         prop_file="Properties/C08.v",
         corr_files=["Corr/C08Corr.v"],
-        theorems=["c08_stub"],
+        theorems=["c08_action_factor", "c08_factor_ge_1", "c08_cost_monotone", "c08_dijkstra", "c08_frontier_invariant",
+                  "c08_flag_sound_guarded", "c08_flag_sound", "c08_pruning_sound_bounded", "c08_flag_sound_bounded",
+                  "c08_unrestricted", "c08_seed_independent", "c08_result_attained", "c08_enough_fuel",
+                  "c08_facts", "c08_fact_requeue"],
         allowed_axioms=[],
-        facts=[],
+        facts=["cf_left_wire_mult", "cf_right_wire_mult", "cf_both_wires_mult", "cf_gate_cut_uses_gate_gamma",
+               "cf_upper_bound_cost_is_gamma_ub", "cf_stop_at_first_min", "cf_overhead_is_square",
+               "bf_bound_branch_requeues", "bf_put_prunes_above_upperbound", "bf_flag_rule"],
         harness="c08",
-        level_text="stub",
-        level_note=STD_NOTE,
-        assumptions=[],
+        level_text="Unbounded theorems (any number of gates/qubits, any tape, any fuel) about the executable model of the cut search "
+                   "(best-first engine with the REPAIRED bound branch, greedy incumbent, wire-cut budget, driver loop, find_cuts metadata): every "
+                   "action multiplies the cost by a factor >= 1; generic Dijkstra/pruning lemmas; the frontier invariant is preserved by a pass; "
+                   "minimum_reached = true implies that the returned overhead is <= that of every goal of the guarded search space; an "
+                   "unrestricted search (no backjump limit, some goal within max_gamma) always sets the flag and its overhead does not depend on "
+                   "the random tape; enough fuel excludes NoFuel. The step from the guarded search space to the declarative specification "
+                   "(all 5^g assignments on the wire-segment graph) is a named hypothesis (pruning_sound_for) of c08_flag_sound and is PROVED ONLY "
+                   "ON A FINITE DOMAIN by complete enumeration inside Coq (c08_pruning_sound_bounded: every circuit up to relabelling with <=3 "
+                   "two-qubit gates of gamma 3/7 on <=4 qubits, W in 1..4, every cut-kind combination); the unbounded exchange argument is open. "
+                   "Closed under the global context. The model's (overhead, minimum_reached) are compared exactly with find_cuts on >1300 requests "
+                   "x 2-3 seeds per quick run (bounded-exhaustive small circuits + random circuits + the F3 witness class).",
+        level_note=STD_NOTE + "No axioms. heapq is modelled as extract-min over a list (oracle contract O-heap); the numpy Generator as a recorded tape.",
+        assumptions=[
+            "Model/CutFinder*.v (written for C07) is a hand-written model of find_cuts and the cut_finding package; tied to the source by the C07 "
+            "correspondence (all intermediate objects) and the C08 correspondence (overhead and flag, strict)",
+            "the model implements the REPAIRED behaviour of BestFirstSearch.optimization_pass (a popped state over a bound is re-queued unless "
+            "the flag is set; candidate fix F3); fact bf_bound_branch_requeues ties this to the source and is false on the unrepaired tree",
+            "gate gammas >= 1 (hypothesis gammas_ok_in; kappa of every QPD basis, C15; monitored on every generated case)",
+            "c08_pruning_sound (guards, no-merge clauses and the wire-cut budget ceil(log2(gamma+1)-1) lose no optimum) is proved by enumeration "
+            "for <=3 gates / <=4 qubits / gammas {3,7} only; beyond that it is a hypothesis of c08_flag_sound, probed by the brute-force oracle",
+            "binary64: gamma_UB ** 2 is exact below 2^26 (cases with a larger greedy gamma are skipped by the generator)",
+            "max_wire_cuts_gamma is modelled exactly over Q (np.log2/np.ceil corner cases at powers of two are not modelled)",
+        ],
     )
